@@ -118,9 +118,17 @@ def benhamLoop (votes : Profile) : Nat → Profile → Except Err (List Slot)
         if remains.length = 1 then .ok remains
         else benhamLoop votes f (subsetProfile votes (slotCands remains))
 
-/-- `Benham().evaluate(votes, 1)` (L708-721) -/
-def benham (votes : Profile) : Except Err (List Slot) :=
+/-- the loop of `Benham().evaluate(votes, 1)` entered with the whole profile (the evaluator as it was before the
+    lone-candidate fix; kept for the lemmas of C08 / C10 / C11) -/
+def benhamCore (votes : Profile) : Except Err (List Slot) :=
   benhamLoop votes ((allRankedCandidates votes).length + 3) votes
+
+/-- `Benham().evaluate(votes, 1)` (sequential.py, Benham.evaluate): a lone candidate has no pairwise contest and
+    takes the seat; otherwise the Condorcet / elimination loop -/
+def benham (votes : Profile) : Except Err (List Slot) :=
+  match allRankedCandidates votes with
+  | [c] => .ok [Slot.cand c]
+  | _ => benhamCore votes
 
 /-- `TidemanAlternative.run_tier` (L670-685) with the Smith (`true`) or Schwartz set selector -/
 def tidemanTier (smith : Bool) : Nat → Profile → Except Err Slot
@@ -138,10 +146,26 @@ def tidemanTier (smith : Bool) : Nat → Profile → Except Err Slot
         | .ok [s] => .ok s
         | .ok rem => tidemanTier smith f (subsetProfile rv2 (slotCands rem))
 
-/-- `TidemanAlternative(set_selector).evaluate(votes, 1)` (L653-668): `eligible_set.remove(winner)`
-    raises KeyError when the tier returned a `Tie` -/
-def tideman (smith : Bool) (votes : Profile) : Except Err (List Slot) :=
+/-- `TidemanAlternative.run_tier` as a whole: a lone candidate takes the seat at once (the check is made once, before
+    the loop); otherwise the set-selector / elimination loop `tidemanTier` -/
+def tidemanRunTier (smith : Bool) (fuel : Nat) (rv : Profile) : Except Err Slot :=
+  match allRankedCandidates rv with
+  | [c] => .ok (Slot.cand c)
+  | _ => tidemanTier smith fuel rv
+
+/-- the one-seat evaluation without the lone-candidate shortcut (the evaluator as it was before that fix; kept for
+    the lemmas of C08 / C10 / C11) -/
+def tidemanCore (smith : Bool) (votes : Profile) : Except Err (List Slot) :=
   match tidemanTier smith ((allRankedCandidates votes).length + 3) votes with
+  | .error e => .error e
+  | .ok (Slot.cand c) =>
+    if (allRankedCandidates votes).contains c then .ok [Slot.cand c] else .error (.other "KeyError")
+  | .ok (Slot.tie _) => .error (.other "KeyError")
+
+/-- `TidemanAlternative(set_selector).evaluate(votes, 1)`: `eligible_set.remove(winner)` raises KeyError when the
+    tier returned a `Tie` -/
+def tideman (smith : Bool) (votes : Profile) : Except Err (List Slot) :=
+  match tidemanRunTier smith ((allRankedCandidates votes).length + 3) votes with
   | .error e => .error e
   | .ok (Slot.cand c) =>
     if (allRankedCandidates votes).contains c then .ok [Slot.cand c] else .error (.other "KeyError")
@@ -157,7 +181,7 @@ def eraseCand : List Cand → Cand → List Cand
 def tidemanLoop (smith : Bool) (tierFuel : Nat) : Nat → Profile → List Cand → List Slot → Nat → Except Err (List Slot)
   | 0, _, _, _, _ => .error (.other "fuel")
   | f + 1, tier, eligible, acc, n =>
-    match tidemanTier smith tierFuel tier with
+    match tidemanRunTier smith tierFuel tier with
     | .error e => .error e
     | .ok (Slot.tie _) => .error (.other "KeyError")
     | .ok (Slot.cand c) =>
